@@ -246,6 +246,8 @@ func drainSystems(r *common.Run, pats []int, hfs []heightFn, depth int) []*sysDe
 
 // ---------------------------------------------------------------- self-test of the harness' own machinery
 
+var statesNotAFunctionOfThePath string
+
 func selfTest(r *common.Run) {
 	locate()
 	if !hookOK {
@@ -271,7 +273,11 @@ func selfTest(r *common.Run) {
 	for i := 0; i < 24; i++ { // the first tower height is time-seeded inside the library: many rebuilds
 		b := build()
 		if da, db := canon.Dump(a.Roots()...), canon.Dump(b.Roots()...); da != db {
-			common.Infra("scripted tower heights do not make the private state a function of the path:\n %s\n %s", trunc(da), trunc(db))
+			// the tower heights of the bucket index cannot be scripted on this tree (any distribution of
+			// heights is legitimate): explicit-state search needs the private state to be a function
+			// of the path, so only the families that do not merge states run (and say so)
+			statesNotAFunctionOfThePath = fmt.Sprintf("%s / %s", trunc(da), trunc(db))
+			return
 		}
 	}
 	if a.dead {
@@ -362,6 +368,12 @@ func runAll(r *common.Run, defs []*sysDef, conc int) []space.Result {
 func main() {
 	r := common.Start("C03", "model_checking")
 	selfTest(r)
+	if statesNotAFunctionOfThePath != "" {
+		r.Incomplete("the scripted tower heights do not make the private state a function of the path on this tree; the explicit-state families were skipped, only the step-by-step drain family ran: " + statesNotAFunctionOfThePath)
+		sparseMid(r)
+		r.Finish("reduced run: see coverage.incomplete")
+		return
+	}
 
 	var results []space.Result
 	// (i) first and alone, so that the case kept for a signature is a shortest one
@@ -389,6 +401,9 @@ func main() {
 	results = append(results, runAll(r, defs, 16)...)
 
 	space.Summarize(r, results)
+	if heightNotObtained.Load() {
+		r.Incomplete("the bucket index never drew the scripted first tower height from its own source within 400 attempts: the tower-height scripts were followed only in part")
+	}
 	sparseMid(r)
 	r.Cov("sparse_to_dense_conversions_executed_incl_replays", atomic.LoadInt64(&cConversions))
 	r.Cov("removals_of_the_last_value_of_a_bucket_executed_incl_replays", atomic.LoadInt64(&cBucketsRemoved))
